@@ -40,6 +40,7 @@ for all of the top-level scoping units encountered during parsing.
 """
 
 from collections import namedtuple
+import copy
 
 
 class SymbolTableError(Exception):
@@ -90,22 +91,33 @@ class SymbolTables:
 
     def snapshot(self):
         """
-        :returns: the current set of top-level symbol tables and the current \
-            scope, in a form that can be passed to :py:meth:`restore`.
-        :rtype: Tuple[Dict[str, :py:class:`fparser.two.symbol_table.SymbolTable`], \
+        :returns: the current set of top-level symbol tables (each with \
+            its contents) and the current scope, in a form that can be \
+            passed to :py:meth:`restore`.
+        :rtype: Tuple[Dict[str, Tuple[ \
+            :py:class:`fparser.two.symbol_table.SymbolTable`, tuple]], \
             Optional[:py:class:`fparser.two.symbol_table.SymbolTable`]]
         """
-        return (dict(self._symbol_tables), self._current_scope)
+        tables = {
+            name: (table, table.snapshot())
+            for name, table in self._symbol_tables.items()
+        }
+        return (tables, self._current_scope)
 
     def restore(self, snapshot):
         """
         Re-instates the set of top-level symbol tables and the current scope
         recorded by an earlier call to :py:meth:`snapshot`. Used to discard
-        whatever a parse that failed had added, removed or left open.
+        whatever a parse that failed had added, removed or left open. This
+        includes anything added to a table that already existed (a scoping
+        unit with the name of an existing top-level table re-uses it).
 
         :param snapshot: the object returned by :py:meth:`snapshot`.
         """
-        self._symbol_tables = dict(snapshot[0])
+        self._symbol_tables = {}
+        for name, (table, state) in snapshot[0].items():
+            table.restore(state)
+            self._symbol_tables[name] = table
         self._current_scope = snapshot[1]
 
     def add(self, name, node=None):
@@ -555,6 +567,34 @@ class SymbolTable:
         if self._modules:
             uses += "\n".join(list(self._modules.keys())) + "\n"
         return f"{header}Symbol Table '{self._name}'\n{symbols}{uses}{header}"
+
+    def snapshot(self):
+        """
+        :returns: the contents of this table (its symbols, module uses and \
+            nested tables with their contents) in a form that can be passed \
+            to :py:meth:`restore`.
+        :rtype: Tuple[dict, dict, list]
+        """
+        return (
+            dict(self._data_symbols),
+            # ModuleUse objects are updated in place by add_use_symbols().
+            {name: copy.deepcopy(use) for name, use in self._modules.items()},
+            [(child, child.snapshot()) for child in self._children],
+        )
+
+    def restore(self, state):
+        """
+        Re-instates the contents recorded by an earlier call to
+        :py:meth:`snapshot`.
+
+        :param state: the object returned by :py:meth:`snapshot`.
+        """
+        self._data_symbols = dict(state[0])
+        self._modules = dict(state[1])
+        self._children = []
+        for child, child_state in state[2]:
+            child.restore(child_state)
+            self._children.append(child)
 
     def add_data_symbol(self, name, primitive_type):
         """
